@@ -85,10 +85,17 @@ def Fmt.apply : Fmt → Val → Val
 /-- `formatter(contender - baseline)` -/
 def diffVal (f : Fmt) (b c : Val) : Val := f.apply (c.sub b)
 
-/-- `_safe_divide(contender - baseline, baseline) * 100.0` -/
-def pctVal (b c : Val) : Val :=
+/-- Python `abs(v)` -/
+def Val.abs : Val → Val
+  | .int i => .int (i.natAbs : Int)
+  | .flt x => .flt ⟨false, x.mag⟩
+
+/-- `_safe_divide(contender - baseline, d) * 100.0` where `d` is `baseline` (`absB = false`, the code as
+    it stands) or `abs(baseline)` (`absB = true`); which one a call site uses is probed by `translate`. -/
+def pctVal (absB : Bool) (b c : Val) : Val :=
   let n := c.sub b
-  let q : Val := if b.truthy then .flt (n.div b) else .int 0
+  let d := if absB then b.abs else b
+  let q : Val := if d.truthy then .flt (n.div d) else .int 0
   q.mulK 100
 
 inductive Colour
@@ -117,25 +124,35 @@ def scaled (prec : Nat) (mag : Rat) : Nat := (Dbl.rhe (mag * ((10 ^ prec : Nat) 
 def mkCell (plain incGood : Bool) (prec : Nat) (pct : Bool) (v : Val) : DCell :=
   let greater := if plain then Colour.none else if incGood then Colour.green else Colour.red
   let smaller := if plain then Colour.none else if incGood then Colour.red else Colour.green
-  let neutral := if plain then Colour.none else Colour.neutral
+  let neutr := if plain then Colour.none else Colour.neutral
   let q := v.rat
   let p := v.toSM
   let n := scaled prec p.mag
   if q ≥ thr prec then ⟨greater, true, p.neg, n, prec, pct⟩
   else if q ≤ -(thr prec) then ⟨smaller, false, p.neg, n, prec, pct⟩
-  else ⟨neutral, false, p.neg, n, prec, pct⟩
+  else ⟨neutr, false, p.neg, n, prec, pct⟩
 
 def diffCell (plain incGood : Bool) (f : Fmt) (b c : Val) : DCell := mkCell plain incGood 5 false (diffVal f b c)
-def pctCell (plain incGood : Bool) (b c : Val) : DCell := mkCell plain incGood 2 true (pctVal b c)
+def pctCell (plain incGood absB : Bool) (b c : Val) : DCell := mkCell plain incGood 2 true (pctVal absB b c)
 
 /-! ### rendering -/
+
+def digitChar : Nat → Char
+  | 0 => '0' | 1 => '1' | 2 => '2' | 3 => '3' | 4 => '4' | 5 => '5' | 6 => '6' | 7 => '7' | 8 => '8' | _ => '9'
 
 /-- `w` decimal digits of `n` (most significant first, leading zeros) -/
 def digitsW : Nat → Nat → Str
   | 0, _ => []
-  | w + 1, n => digitsW w (n / 10) ++ [Char.ofNat (48 + n % 10)]
+  | w + 1, n => digitsW w (n / 10) ++ [digitChar (n % 10)]
 
-def fixedStr (prec n : Nat) : Str := Nat.toDigits 10 (n / 10 ^ prec) ++ ['.'] ++ digitsW prec (n % 10 ^ prec)
+/-- decimal digits of `n` without leading zeros (`"0"` for 0); structural on a fuel `f ≥ n` -/
+def natDigitsF : Nat → Nat → Str
+  | 0, n => [digitChar n]
+  | f + 1, n => if n < 10 then [digitChar n] else natDigitsF f (n / 10) ++ [digitChar (n % 10)]
+
+def natDigits (n : Nat) : Str := natDigitsF n n
+
+def fixedStr (prec n : Nat) : Str := natDigits (n / 10 ^ prec) ++ ['.'] ++ digitsW prec (n % 10 ^ prec)
 
 def esc : Char := Char.ofNat 27
 
@@ -150,22 +167,13 @@ def DCell.text (d : DCell) : Str :=
 
 def DCell.render (d : DCell) : Str := wrap d.colour d.text
 
-/-- remove `ESC [ … m` sequences (what "without colour codes" means) -/
-def stripAnsi : Str → Str
-  | [] => []
-  | c :: rest =>
-    if c = esc then
-      match rest.dropWhile (fun x => x != 'm') with
-      | [] => []
-      | _ :: after => stripAnsi after
-    else c :: stripAnsi rest
-termination_by s => s.length
-decreasing_by
-  all_goals simp_wf
-  · have h1 := List.dropWhile_suffix (l := rest) (fun x => x != 'm')
-    have h2 := h1.length_le
-    rename_i h; rw [h] at h2; simp at h2; omega
-  · omega
+/-- remove `ESC … m` sequences (what "without colour codes" means): `inEsc` = inside a sequence -/
+def stripAux : Bool → Str → Str
+  | _, [] => []
+  | false, c :: rest => if c = esc then stripAux true rest else c :: stripAux false rest
+  | true, c :: rest => if c = 'm' then stripAux false rest else stripAux true rest
+
+def stripAnsi (s : Str) : Str := stripAux false s
 
 def DCell.uncolour (d : DCell) : DCell := { d with colour := .none }
 
@@ -221,13 +229,14 @@ structure RowSpec where
   incGood : Bool    -- treat_increase_as_improvement
   fmt : Fmt
   needsProc : Bool  -- only with reporting/output.processingtime
+  pctAbs : Bool     -- the relative difference divides by abs(baseline) (false: by baseline)
 deriving DecidableEq
 
 inductive Block
   | scalars (rows : List RowSpec)
-  /-- `for b in baseline.<key>: for c in contender.<key>: if c[id] == b[id]: rows…`; with `guard = some g`
-      the whole block is skipped when the baseline's `g` is `None` -/
-  | joined (listKey : Str) (guard : Option Str) (rows : List RowSpec)
+  /-- `for b in baseline.<key>: for c in contender.<key>: if c[id] == b[id]: rows…`; with `guardB = some g`
+      the whole block is skipped when the baseline's `g` is `None`, with `guardC = some g` when the contender's is -/
+  | joined (listKey : Str) (guardB guardC : Option Str) (rows : List RowSpec)
   | tasks (rows : List RowSpec)
 
 inductive Err
@@ -241,7 +250,7 @@ def unitOf (u : UnitSrc) (b : Scope) : Option Str :=
 
 def mkRow (plain : Bool) (s : RowSpec) (task : Str) (unit : Option Str) (bv cv : Val) : Row :=
   { label := s.label, task := task, base := s.fmt.apply bv, cont := s.fmt.apply cv,
-    diff := diffCell plain s.incGood s.fmt bv cv, unit := unit, pct := pctCell plain s.incGood bv cv }
+    diff := diffCell plain s.incGood s.fmt bv cv, unit := unit, pct := pctCell plain s.incGood s.pctAbs bv cv }
 
 /-- `_line`: a row iff both values are present -/
 def line (plain : Bool) (s : RowSpec) (task : Str) (b c : Scope) : Option Row :=
@@ -270,12 +279,15 @@ def getList (k : Str) (s : Stats) : Option (List Entry) :=
   | some (some l) => some l
   | _ => none
 
-def joinRows (plain showProc : Bool) (k : Str) (guard : Option Str) (specs : List RowSpec) (b c : Stats) :
+/-- `if baseline_stats.<guard> is None: return []` -/
+def guardSkips (guard : Option Str) (b : Stats) : Bool :=
+  match guard with
+  | some g => (getList g b).isNone
+  | none => false
+
+def joinRows (plain showProc : Bool) (k : Str) (guardB guardC : Option Str) (specs : List RowSpec) (b c : Stats) :
     Except Err (List Row) :=
-  let skipped := match guard with
-    | some g => (getList g b).isNone
-    | none => false
-  if skipped then .ok [] else
+  if guardSkips guardB b || guardSkips guardC c then .ok [] else
   match getList k b with
   | none => .error .typeError
   | some [] => .ok []
@@ -288,7 +300,7 @@ def joinRows (plain showProc : Bool) (k : Str) (guard : Option Str) (specs : Lis
 
 def blockRows (plain showProc : Bool) (b c : Stats) : Block → Except Err (List Row)
   | .scalars specs => .ok (scopeRows plain showProc specs [] b.glob c.glob)
-  | .joined k g specs => joinRows plain showProc k g specs b c
+  | .joined k gb gc specs => joinRows plain showProc k gb gc specs b c
   | .tasks specs => .ok (taskRows plain showProc specs b c)
 
 /-- `ComparisonReporter._metrics_table(baseline, contender, plain)` -/
@@ -303,7 +315,7 @@ def metricsTable (blocks : List Block) (plain showProc : Bool) (b c : Stats) : E
 
 def Block.specs : Block → List RowSpec
   | .scalars r => r
-  | .joined _ _ r => r
+  | .joined _ _ _ r => r
   | .tasks r => r
 
 def allSpecs (blocks : List Block) : List RowSpec := blocks.flatMap Block.specs
